@@ -1006,7 +1006,8 @@ def multi_violation(items, rng):
     term = terms[0]
     tnames = [v["name"] for v in term["variants"]]
     some = sym_t(tnames[0]) if tnames else sym_n(nts[0]["name"])
-    kind = rng.choice(["variant-names", "variant-names", "variant-seqs", "toplevel", "undef", "lower", "terminal-names", "mixed-enum"])
+    kind = rng.choice(["variant-names", "variant-names", "variant-seqs", "toplevel", "undef", "lower", "terminal-names", "mixed-enum",
+                       "nt-t-clashes", "nt-t-clashes", "mixed-toplevel"])
     groups = rng.randint(2, 3)
     base = rng.choice(["Add", "Neg", "Mul", "Zq", "Kx"])
     names = [f"{base}{chr(65 + j)}" for j in range(groups)]
@@ -1033,6 +1034,18 @@ def multi_violation(items, rng):
         rng.shuffle(ds)
         for d in ds:
             it.insert(rng.randint(0, len(it)), d)
+    elif kind in ("nt-t-clashes", "mixed-toplevel"):
+        # several names used both for a nonterminal and for a terminal variant (and, in the mixed kind, a repeated
+        # terminal variant and a repeated nonterminal as well): every pair is a top-level name clash
+        for j, n in enumerate(names):
+            it.insert(rng.randint(0, len(it)), {"kind": "struct", "attrs": [], "name": "Zz" + n, "fieldset": tup(j % 3)})
+        vs = [{"name": "Zz" + n, "type": "()"} for n in names]
+        if kind == "mixed-toplevel":
+            vs.append({"name": "Zz" + names[0], "type": "usize"})
+            it.insert(rng.randint(0, len(it)), {"kind": "struct", "attrs": [], "name": "Zz" + names[-1], "fieldset": tup(0)})
+        rng.shuffle(vs)
+        for v in vs:
+            term["variants"].insert(rng.randint(0, len(term["variants"])), v)
     elif kind == "undef":
         missing = [sym_n("Missing" + n) if rng.random() < 0.5 else sym_t("Missing" + n) for n in names]
         if rng.random() < 0.5:
